@@ -20,7 +20,13 @@ def seeds_of(seed):
 
 
 GRID = [0.1, 0.5, 1.0, 2.0, 5.0, 20.0]
-STAT_OPS = ("ks", "chi2", "chi2d", "chi2rc")
+# the routines `repro1` knows (harness/C18.cpp: reproCall)
+REPRO_ROUTINES = ["giveRandomNumberBetweenZeroAndEntry", "giveIntRandomNumberBetweenZeroAndEntry", "flipCoin", "randGaussian", "randGamma1",
+                  "randGamma2", "randBeta", "randExponential", "pickOne", "pickOneConst", "pickOneW", "pickOneWConst", "getSample",
+                  "getSampleRepl", "getSampleW", "getSampleWRepl", "pickFromCumSum", "randMultinomial", "rcont2", "ContingencyTableTest",
+                  "discreteRand", "Gamma::randC", "Gaussian::randC", "Exponential::randC", "TruncExponential::randC", "Beta::randC",
+                  "Uniform::randC", "hmmSample"]
+STAT_OPS = ("ks", "chi2", "chi2d", "chi2rc", "chi2rc3")
 
 
 def weights(rng, n, allow_all_zero=False):
@@ -167,15 +173,25 @@ def stat_cases(rng, seeds, tier):
         fams.append(("gauss", [rng.choice([-3.0, 0.0, 7.5]), b]))       # mean, variance
         fams.append(("gamma2", [a, b]))
         # Beta(a, b) with b < 0.27 has more than 1e-4 of its mass within one ulp of 1 (for a = 1 and
-        # b = 0.1: 2.7%), where doubles cannot resolve the cdf: a KS test on doubles is meaningless there
-        fams.append(("beta", [a, max(b, 0.5)]))
+        # b = 0.1: 2.7%), where doubles cannot resolve the cdf (and qBeta caps its result): the harness
+        # compares the beta samples with the cdf conditionally on x < 1 - 1e-9 (see `ks` in harness/C18.cpp)
+        fams.append(("beta", [a, b]))
         fams.append(("dGamma", [a, b]))
+        # offset + Gamma(alpha, beta): with alpha = 0.1 several per cent of the mass lie within one ulp of the
+        # offset (x + offset rounds to the offset: an atom that doubles cannot avoid), so alpha >= 0.5 here
+        fams.append(("dGammaOff", [max(a, 0.5), b, rng.choice([-2.0, 0.5, 3.0])]))   # alpha, beta, offset
         fams.append(("dGauss", [rng.choice([-3.0, 0.0, 7.5]), b]))      # mu, sigma
-        fams.append(("dBeta", [max(a, 0.5), max(b, 0.5)]))
+        fams.append(("dBeta", [a, b]))
+    # the corner of the beta law (mass piling up at 1) at every seed
+    for a, b in ([] if big else [(20.0, 0.1), (0.1, 0.1), (1.0, 0.1)]):
+        fams.append(("beta", [a, b]))
+        fams.append(("dBeta", [a, b]))
+    for lo, hi in [(0.0, 1.0), (-3.0, 2.0), (2.0, 2.5)] + ([(0.1, 20.0), (-20.0, -0.1)] if big else []):
+        fams.append(("dUnif", [lo, hi]))
     for i, (fam, ps) in enumerate(fams):
         s = seeds[i % len(seeds)]
         cases.append(["case ks-%s-%d" % (fam, i), "seed %d" % s, "ks %s %d %s" % (fam, n_ks, " ".join(map(hx, ps)))])
-    kinds = ["pickwc", "pick1c", "cumsum", "multinom", "samplew", "shuffle", "drand"]
+    kinds = ["pickwc", "pickw", "pick1c", "cumsum", "multinom", "samplew", "samplewfull", "samplewr", "samplewe", "shuffle", "drand"]
     wsets = [[1.0], [1.0, 3.0], [1.0, 0.0, 3.0], [0.0, 2.0, 2.0, 0.0, 4.0], [0.05, 0.9, 0.05], [float(i + 1) for i in range(12)]]
     wsets += [weights(rng, rng.randint(2, 12)) for _ in range(6 if big else 2)]
     i = 0
@@ -185,6 +201,10 @@ def stat_cases(rng, seeds, tier):
         cases.append(["case chi2-uint-%d" % j, "seed %d" % seeds[(j + 5) % len(seeds)], "chi2 uint %d %s" % (n_chi, " ".join([hx(1.0)] * k))])
     for kind in kinds:
         for w in wsets:
+            s = seeds[i % len(seeds)]; i += 1
+            cases.append(["case chi2-%s-%d" % (kind, i), "seed %d" % s, "chi2 %s %d %s" % (kind, n_chi, " ".join(map(hx, w)))])
+    for kind in ["pairs", "pairsw"]:
+        for w in [[1.0, 3.0], [1.0, 0.0, 3.0], [2.0, 1.0, 1.0, 4.0]]:
             s = seeds[i % len(seeds)]; i += 1
             cases.append(["case chi2-%s-%d" % (kind, i), "seed %d" % s, "chi2 %s %d %s" % (kind, n_chi, " ".join(map(hx, w)))])
     for fam, ps in [("dGamma", [0.5, 2.0]), ("dGamma", [5.0, 1.0]), ("dGauss", [1.0, 2.0]), ("dExpo", [3.0]), ("dBeta", [2.0, 3.0])]:
@@ -198,8 +218,16 @@ def stat_cases(rng, seeds, tier):
     for (r0, r1, c0) in [(5, 1, 3), (3, 3, 3), (10, 7, 6), (1, 1, 1), (20, 30, 25), (2, 9, 4)] + ([(50, 50, 50), (7, 3, 9)] if big else []):
         s = seeds[i % len(seeds)]; i += 1
         cases.append(["case chi2rc-%d" % i, "seed %d" % s, "chi2rc %d %d %d %d %d" % (n_chi // 4, r0, r1, c0, r0 + r1 - c0)])
+    for (sh, a0, a1, b0, b1, b2) in [("r", 4, 5, 3, 3, 3), ("c", 4, 5, 3, 3, 3), ("r", 6, 2, 1, 4, 3), ("c", 3, 9, 5, 2, 5)] + ([("r", 10, 12, 8, 7, 7), ("c", 2, 2, 1, 1, 2)] if big else []):
+        s = seeds[i % len(seeds)]; i += 1
+        cases.append(["case chi2rc3-%d" % i, "seed %d" % s, "chi2rc3 %d %s %d %d %d %d %d" % (n_chi // 4, sh, a0, a1, b0, b1, b2)])
     for s in seeds:
         cases.append(["case repro-%d" % s, "repro %d" % s])
+    # every modelled routine on its own: same seed, different histories before it (even and odd numbers of
+    # earlier calls: a cached second value of a pair-producing sampler shows after an odd number)
+    for j, r in enumerate(REPRO_ROUTINES):
+        ops = ["repro1 %s %d %d %d" % (r, seeds[(j + q) % len(seeds)], a, b) for q, (a, b) in enumerate([(0, 1), (1, 2), (2, 5), (0, 4)])]
+        cases.append(["case repro1-%s" % r] + ops)
     return cases
 
 
@@ -226,7 +254,7 @@ def generate(seed, tier):
     for s in seeds:
         cases.append(["case rc-w-%d" % s, "seed %d" % s] + ["rcont2 5 1 ; 3 3"] * 20 + ["rcont2 9 2 1 ; 4 4 4"] * 10)
     # 3. random deterministic-tie scripts
-    nrand = 30000 if tier == "thorough" else 1200
+    nrand = 100000 if tier == "thorough" else 4000
     for i in range(nrand):
         L = rng.randint(4, 14)
         cases.append(["case det-%d" % i, "seed %d" % seeds[i % 16]] + [det_ops(rng) for _ in range(L)])
@@ -262,8 +290,9 @@ def compare(op_line, impl, model):
         return model.strip() == "stat" and re.match(r"^[0-9a-fn ;]+$", impl.strip()) is not None
     if op == "ctest" and not impl.startswith("exc:"):
         a, b = impl.split(), model.split()
-        # the C++ accumulates the statistic through long double: compared to 1e-9 relative
-        return len(a) == 3 and len(b) == 3 and _close(a[0], b[0]) and a[1] == b[1] and a[2] == b[2]
+        # the C++ accumulates the statistic through long double: compared to 1e-9 relative; everything else
+        # (p-value, degrees of freedom, margins, replicate statistics, generator-state flag) exactly
+        return len(a) >= 3 and len(a) == len(b) and _close(a[0], b[0]) and a[1:] == b[1:]
     return " ".join(impl.split()) == " ".join(model.split())
 
 
@@ -282,13 +311,13 @@ def coverage_extra(cases, answers):
                 seeds.add(t[1])
             if t[0] == "ks":
                 try:
-                    n = int(t[2]); d = unhx(r.split()[0])
+                    n = int(r.split()[1]); d = unhx(r.split()[0])      # n' reported by the harness (beta: points below the censoring point)
                     bound = math.sqrt((math.log(1e9) + math.log(2)) / (2 * n))
                     worst[t[1]] = max(worst.get(t[1], 0.0), round(d / bound, 3))
                 except Exception:
                     worst[t[1]] = "nan"
             if t[0] in STAT_OPS:
-                key = t[0] + ":" + t[1] if t[0] != "chi2rc" else "chi2rc"
+                key = t[0] + ":" + t[1] if t[0] not in ("chi2rc", "chi2rc3") else t[0]
                 fam[key] = fam.get(key, 0) + 1
             if t[0] in ("sample", "samplew"):
                 k = int(t[2]); n = len(l.split(";")[0].split()) - 3
